@@ -79,3 +79,125 @@ def check_C04(tier):
         if not okk:
             raise ToolError("binding self-test failed")
     return res.finish()
+
+
+def fifo_descriptor(rec, clause):
+    return {"family": rec.get("fam"), "clause": clause, "op": rec.get("op"), "verdict": rec.get("verdict"),
+            "piece_len": len(rec.get("bytes", []))}
+
+
+def check_C07(tier):
+    res = Result("C07", tier, "model_checking")
+    res.rule = ("E1 (CbFifo.tla, ScalerLen=12): every stream of <= 4 (thorough 5) items from {timestamp, marker, scaler "
+                "block whose body/tail look like entries/headers, invalid word, non-existent channel, bare header, "
+                "half word} x every way of feeding it in pieces of 1..13 bytes or all-at-once with parses in between "
+                "(cut history hidden by a VIEW): split invariance, remainder equality, buffer-is-suffix, "
+                "element-atomicity. E2: random behaviours of the same model (TLC -simulate) are expanded to 244-byte "
+                "blocks (cut offsets mapped into header/body/tail) and fed to the real chronobox_fifo; seeded streams "
+                "of 0..400 items with the wire constants are cut into 1..40 pieces. E3 (Trace_CbFifo): at every "
+                "step entries, bytes left and the head of the remainder must equal ParsePrefix of the spec's own "
+                "buffer, at the end of each session the one-shot parse. Word classification: RLE sweep over 32-bit "
+                "words (thorough: all 2^32) against the top-byte table. distinct_nontrivial = sessions with >= 2 "
+                "pieces of which at least one cut falls inside an element")
+    res.assumptions = ["CbWords.tla is the reference semantics of the FIFO words",
+                       "the harness re-submits exactly the slice the parser left (its own buffer discipline)"]
+    items = 4 if tier == "quick" else 5
+    consts = {"ScalerLen": 12, "MaxPiece": 13, "MaxItems": items, "Streams": "StreamsDef"}
+    cfg = write_cfg("MC_CbFifo_" + tier, constants=None, view="view",
+                    invariants=["SplitInvariant", "RemainderInvariant", "BufIsSuffix", "OnElementBoundary"],
+                    extra="CONSTANTS\n ScalerLen = 12\n MaxPiece = 13\n MaxItems = %d\n Streams <- StreamsDef" % items)
+    r = tlc_model_check("MC_CbFifo", cfg, "mc_cbfifo_" + tier, expect_actions=["Feed", "Parse"], workers=8, timeout=3000)
+    res.add_mc(r)
+    cfg2 = write_cfg("MC_CbFifo_sim_" + tier, invariants=["Export"],
+                     extra="CONSTANTS\n ScalerLen = 12\n MaxPiece = 13\n MaxItems = 5\n Streams <- StreamsDef")
+    nsim = 400 if tier == "quick" else 6000
+    r2 = run_tlc("MC_CbFifo", cfg2, "mc_cbfifo_sim_" + tier, workers=1, coverage=False, simulate=nsim, depth=90,
+                 env_extra={"_SEED": str(seed())})
+    if r2["error"]:
+        raise ToolError("simulation export failed: %s" % r2["error"])
+    beh = os.path.join(BUILD, "traces", "C07_beh.ndjson")
+    nb = extract_replay_to_file(r2, beh)
+    if nb == 0:
+        raise ToolError("no behaviours exported")
+    nrand = 300 if tier == "quick" else 20000
+    trace = os.path.join(BUILD, "traces", "C07_trace.ndjson")
+    res.evaluations += run_vh(["fifo", "--in", beh, "--n", str(nrand), "--seed", str(seed())], trace)
+    sweep = os.path.join(BUILD, "traces", "C07_sweep.ndjson")
+    import subprocess
+    p = subprocess.run([vh_path(), "cbsweep", "--out", sweep, "--tier", tier], stdout=subprocess.PIPE,
+                       stderr=subprocess.STDOUT, text=True, timeout=3000)
+    if p.returncode != 0:
+        raise ToolError("cbsweep failed: " + p.stdout[-500:])
+    res.evaluations += (1 << 32) if tier == "thorough" else (1 << 20)
+    # sessions must not be split across files: cut at reset records
+    parts = split_sessions(trace, 40000)
+    for k, part in enumerate(parts):
+        validate_dec_trace(res, part, "C07_%d" % k, module="Trace_CbFifo", descriptor=fifo_descriptor)
+    validate_dec_trace(res, sweep, "C07_sweep", module="Trace_CbFifo", descriptor=fifo_descriptor)
+    # count sessions and non-trivial ones
+    sessions = 0
+    nontrivial = 0
+    pieces = 0
+    inside = False
+    with open(trace) as f:
+        for line in f:
+            rec = json.loads(line)
+            if rec.get("op") == "reset":
+                sessions += 1
+                pieces = 0
+                inside = False
+            elif rec.get("op") in ("feed", "step"):
+                pieces += 1
+                if rec.get("op") == "step" and rec.get("left", 0) % 4 != 0 or rec.get("left", 0) >= 244:
+                    inside = True
+            elif rec.get("op") == "end":
+                if pieces >= 2 and inside:
+                    nontrivial += 1
+            if len(res.samples) < 4 and rec.get("op") == "step" and 0 < len(rec.get("entries", [])) < 6:
+                res.add_sample(slim(rec), 4)
+    res.traces = sessions
+    res.distinct = nontrivial
+    res.extra["records_validated"] = count_lines(trace)
+    res.extra["behaviours_exported"] = nb
+    res.exhaustive = False
+    if tier == "thorough":
+        lines = open(trace).readlines()
+        for k, line in enumerate(lines):
+            rec = json.loads(line)
+            if rec.get("op") == "step" and rec.get("entries"):
+                break
+        rec["entries"] = rec["entries"][:-1]
+        p2 = trace + ".selftest"
+        open(p2, "w").write(lines[k - 1] if json.loads(lines[k - 1]).get("op") == "reset" else json.dumps({"fam": "fifo", "op": "reset", "i": 0}) + "\n")
+        open(p2, "a").write(json.dumps(rec) + "\n")
+        # the preceding feeds of the session are missing in this extract, so only use it when the step is the first of its session
+        _, mism, _ = tlc_validate("Trace_CbFifo", p2, "C07_self")
+        okk = any(m[0] == rec["i"] for m in mism)
+        res.extra["binding_selftest"] = {"corrupted_record": rec["i"], "rejected": okk}
+        if not okk:
+            raise ToolError("binding self-test failed")
+    return res.finish()
+
+
+def split_sessions(path, n):
+    """Splits a stateful trace at reset records into parts of about n lines."""
+    total = count_lines(path)
+    if total <= n:
+        return [path]
+    parts = []
+    out = None
+    cnt = 0
+    with open(path) as f:
+        for line in f:
+            if out is None or (cnt >= n and '"op":"reset"' in line):
+                if out:
+                    out.close()
+                p = "%s.part%d" % (path, len(parts))
+                parts.append(p)
+                out = open(p, "w")
+                cnt = 0
+            out.write(line)
+            cnt += 1
+    if out:
+        out.close()
+    return parts
